@@ -102,7 +102,8 @@ def exact_float(run, tier, nprng):
                     warnings.simplefilter("ignore")
                     want = want64.astype(dt)
                 for ip in (False, True):
-                    arg = x.copy()
+                    layout = common.LAYOUTS[(n + ip + np.dtype(dt).itemsize) % len(common.LAYOUTS)] if n <= 1000 else "contig"
+                    arg = common.relayout(x, layout)
                     if not ip:
                         arg.flags.writeable = False
                     try:
@@ -113,11 +114,11 @@ def exact_float(run, tier, nprng):
                         run.violation({"kind": "preemph_raised", "dtype": str(np.dtype(dt)), "n": n, "coeff": coeff, "in_place": ip, "error": repr(e)})
                         continue
                     run.evaluations += 1
-                    if got.dtype != np.dtype(dt) or got.shape != want.shape or got.tobytes() != want.tobytes():
+                    if got.dtype.newbyteorder("=") != np.dtype(dt) or got.shape != want.shape or got.astype(dt).tobytes() != want.tobytes():
                         bad = int(np.sum(got != want)) if got.shape == want.shape else -1
                         run.violation({"kind": "preemph_not_float64_recurrence_cast_back", "dtype": str(np.dtype(dt)), "n": n, "coeff": coeff,
-                                       "in_place": ip, "result_dtype": str(got.dtype), "n_samples_off": bad})
-                    if not ip and arg.tobytes() != x.tobytes():
+                                       "in_place": ip, "layout": layout, "result_dtype": str(got.dtype), "n_samples_off": bad})
+                    if not ip and not np.array_equal(arg, x):
                         run.violation({"kind": "preemph_modified_input", "dtype": str(np.dtype(dt)), "n": n, "coeff": coeff})
 
 
@@ -130,16 +131,16 @@ def dither(run, tier):
                 outs = []
                 for x in (np.zeros(n, dtype=dt), base):
                     for ip in (False, True):
-                        arg = x.copy()
+                        arg = common.relayout(x, common.LAYOUTS[(n + ip + int(coeff * 2)) % len(common.LAYOUTS)])
                         if not ip:
                             arg.flags.writeable = False
                         np.random.seed(99)
                         got = d.apply(arg, in_place=ip)
                         run.evaluations += 1
-                        if got.dtype != np.dtype(dt) or got.shape != x.shape:
+                        if got.dtype.newbyteorder("=") != np.dtype(dt) or got.shape != x.shape:
                             run.violation({"kind": "dither_dtype_or_shape", "dtype": str(np.dtype(dt)), "n": n})
                             continue
-                        if not ip and arg.tobytes() != x.tobytes():
+                        if not ip and not np.array_equal(arg, x):
                             run.violation({"kind": "dither_modified_input", "dtype": str(np.dtype(dt)), "n": n, "coeff": coeff})
                         outs.append((x, ip, got))
                 np.random.seed(99)
